@@ -58,13 +58,14 @@ let rec dispatch (fn : string) (req : json) : json =
     (* decoded message or error class, the handler's state effect, and the same with a second nesting
        bound so that the harness can tell when the outcome depends on the recursion limit *)
     let data = jbytes (jfield req "data") in
+    let own = (match jfield_opt req "own" with Some j -> jbytes j | None -> []) in
     let one fuel probe =
       let eff = if probe then
           let st = probe_receive fuel data in
           ["effect", JObj ["failures", of_nat (probe_failures st); "processed", of_bool (probe_processed st)]]
         else [] in
       (match decode_datagram fuel data with
-       | Inl m -> JObj (("msg", of_raw m) :: eff)
+       | Inl m -> JObj (("msg", of_raw m) :: ("request_valid", of_bool (request_valid own m)) :: eff)
        | Inr e -> JObj (("err", JStr (err_name e)) :: eff)) in
     let lo = one (jnat (jfield req "fuel_lo")) false in
     let hi = one (jnat (jfield req "fuel_hi")) true in
